@@ -110,8 +110,8 @@ CHECKS["C12"] = {
     "design_ref": "§3 C12, §2.5, §2.6",
     "technique": "exhaustive frame-token sequence x segmentation enumeration on the real WebSocketReader vs an RFC 6455/7692 reference decoder",
     "text": "All sequences of up to 2 tokens over the full frame alphabet (about 60 tokens: valid TEXT/BINARY/CONTINUATION/PING/PONG/CLOSE in every fin/mask/length "
-            "form, one token per violation class of the statement, sizes max-1/max/max+1, compressed and decompression-bomb tokens) and up to 3 (4 in thorough) over a "
-            "core alphabet, for 5-7 (compress, decode_text, max_msg_size) configurations, are fed to the real reader whole, under every single cut, every pair of cuts (sequences of up to three tokens) "
+            "form, one token per violation class of the statement, sizes max-1/max/max+1, compressed and decompression-bomb tokens) and up to 3 (4 over the 16 core tokens in thorough) over a "
+            "core alphabet, for 5-7 (compress, decode_text, max_msg_size) configurations, are fed to the real reader whole, under every single cut, every pair of cuts (sequences of up to two tokens; in thorough also of three core tokens) "
             "and byte-at-a-time.  Messages up to the first violation, the close code, 'nothing delivered after the error', independence of segmentation and the "
             "retained-bytes bound are checked on every run. The application's view is taken through the queue's read path (prompt and late consumer, with and without end of connection), and 1300-frame histories on one reader check that nothing accumulates from frame to frame. An application that does not read must see the transport paused after a bounded number of (also empty) messages; what arrives after the reader ended must not be retained by the client protocol; and the real server and client handshakes are run with every offer/answer to check that RSV1 is accepted exactly when permessage-deflate was agreed on the wire.",
     "note": TRUST + " The protocol object behind the data queue is a pause/resume stub; non-minimal length encodings and mask direction are not judged; "
